@@ -25,7 +25,8 @@ def main():
     extra = sys.argv[2:]          # further property ids to run the patch against
     wt = Path(f"/tmp/seed_{pid}")
     out = wt / "_out"
-    for k in range(1, 21):
+    ks = [int(x) for x in os.environ["ONLY_K"].split(",")] if os.environ.get("ONLY_K") else range(1, 21)
+    for k in ks:
         patch = out / f"patch{k}.diff"
         if not patch.exists():
             continue
